@@ -1,0 +1,28 @@
+//go:build verif
+
+package tchannel
+
+// Structure invariants: facts about fields that are written only by their
+// constructors (checked mechanically over every store in the package) or by
+// functions under a verified contract, where the invariant is re-proved at the
+// store. They are proved when the constructor returns -- for the object it
+// returns and for every object of the type it allocated -- and assumed for
+// every other pointer to such a struct, across any havoc.
+
+// An exchange set is wired up once, in newConnection.
+//@ structinv (s *messageExchangeSet) established newConnection helpers newMessageExchangeSet : s.log != nil && s.exchanges != nil && s.expiredExchanges != nil && s.onAdded != nil && s.onRemoved != nil
+
+// An exchange always knows its set and has a context. (The frame pool is not
+// included: the default pool is an exported package variable.)
+//@ structinv (mex *messageExchange) established newExchange : mex.mexset != nil && mex.ctx != nil
+
+//@ extern github.com/opentracing/opentracing-go.ContextWithSpan(ctx context.Context, span opentracing.Span) (r context.Context)
+//@   ensures r != nil
+
+//@ func (mexset *messageExchangeSet) newExchange(ctx context.Context, ctxCancel context.CancelFunc, framePool FramePool, msgType messageType, msgID uint32, bufferSize int) (mex *messageExchange, err error)
+//@   label exchange-needs-a-context
+//@   requires ctx != nil
+//@   property C04 C12
+
+// A connection's exchange sets, logger and frame pool are fixed at construction.
+//@ structinv (c *Connection) established newConnection : c.inbound != nil && c.outbound != nil && c.log != nil
